@@ -275,7 +275,7 @@ namespace glm
 	GLM_FUNC_QUALIFIER vec<2, T, defaultp> make_vec2(T const *const ptr)
 	{
 		vec<2, T, defaultp> Result;
-		memcpy(value_ptr(Result), ptr, sizeof(vec<2, T, defaultp>));
+		memcpy(value_ptr(Result), ptr, 2 * sizeof(T));
 		return Result;
 	}
 
@@ -283,7 +283,7 @@ namespace glm
 	GLM_FUNC_QUALIFIER vec<3, T, defaultp> make_vec3(T const *const ptr)
 	{
 		vec<3, T, defaultp> Result;
-		memcpy(value_ptr(Result), ptr, sizeof(vec<3, T, defaultp>));
+		memcpy(value_ptr(Result), ptr, 3 * sizeof(T));
 		return Result;
 	}
 
@@ -291,7 +291,7 @@ namespace glm
 	GLM_FUNC_QUALIFIER vec<4, T, defaultp> make_vec4(T const *const ptr)
 	{
 		vec<4, T, defaultp> Result;
-		memcpy(value_ptr(Result), ptr, sizeof(vec<4, T, defaultp>));
+		memcpy(value_ptr(Result), ptr, 4 * sizeof(T));
 		return Result;
 	}
 
@@ -299,7 +299,8 @@ namespace glm
 	GLM_FUNC_QUALIFIER mat<2, 2, T, defaultp> make_mat2x2(T const *const ptr)
 	{
 		mat<2, 2, T, defaultp> Result;
-		memcpy(value_ptr(Result), ptr, sizeof(mat<2, 2, T, defaultp>));
+		for(length_t i = 0; i < 2; ++i)
+			memcpy(value_ptr(Result[i]), ptr + i * 2, 2 * sizeof(T));
 		return Result;
 	}
 
@@ -307,7 +308,8 @@ namespace glm
 	GLM_FUNC_QUALIFIER mat<2, 3, T, defaultp> make_mat2x3(T const *const ptr)
 	{
 		mat<2, 3, T, defaultp> Result;
-		memcpy(value_ptr(Result), ptr, sizeof(mat<2, 3, T, defaultp>));
+		for(length_t i = 0; i < 2; ++i)
+			memcpy(value_ptr(Result[i]), ptr + i * 3, 3 * sizeof(T));
 		return Result;
 	}
 
@@ -315,7 +317,8 @@ namespace glm
 	GLM_FUNC_QUALIFIER mat<2, 4, T, defaultp> make_mat2x4(T const *const ptr)
 	{
 		mat<2, 4, T, defaultp> Result;
-		memcpy(value_ptr(Result), ptr, sizeof(mat<2, 4, T, defaultp>));
+		for(length_t i = 0; i < 2; ++i)
+			memcpy(value_ptr(Result[i]), ptr + i * 4, 4 * sizeof(T));
 		return Result;
 	}
 
@@ -323,7 +326,8 @@ namespace glm
 	GLM_FUNC_QUALIFIER mat<3, 2, T, defaultp> make_mat3x2(T const *const ptr)
 	{
 		mat<3, 2, T, defaultp> Result;
-		memcpy(value_ptr(Result), ptr, sizeof(mat<3, 2, T, defaultp>));
+		for(length_t i = 0; i < 3; ++i)
+			memcpy(value_ptr(Result[i]), ptr + i * 2, 2 * sizeof(T));
 		return Result;
 	}
 
@@ -331,7 +335,8 @@ namespace glm
 	GLM_FUNC_QUALIFIER mat<3, 3, T, defaultp> make_mat3x3(T const *const ptr)
 	{
 		mat<3, 3, T, defaultp> Result;
-		memcpy(value_ptr(Result), ptr, sizeof(mat<3, 3, T, defaultp>));
+		for(length_t i = 0; i < 3; ++i)
+			memcpy(value_ptr(Result[i]), ptr + i * 3, 3 * sizeof(T));
 		return Result;
 	}
 
@@ -339,7 +344,8 @@ namespace glm
 	GLM_FUNC_QUALIFIER mat<3, 4, T, defaultp> make_mat3x4(T const *const ptr)
 	{
 		mat<3, 4, T, defaultp> Result;
-		memcpy(value_ptr(Result), ptr, sizeof(mat<3, 4, T, defaultp>));
+		for(length_t i = 0; i < 3; ++i)
+			memcpy(value_ptr(Result[i]), ptr + i * 4, 4 * sizeof(T));
 		return Result;
 	}
 
@@ -347,7 +353,8 @@ namespace glm
 	GLM_FUNC_QUALIFIER mat<4, 2, T, defaultp> make_mat4x2(T const *const ptr)
 	{
 		mat<4, 2, T, defaultp> Result;
-		memcpy(value_ptr(Result), ptr, sizeof(mat<4, 2, T, defaultp>));
+		for(length_t i = 0; i < 4; ++i)
+			memcpy(value_ptr(Result[i]), ptr + i * 2, 2 * sizeof(T));
 		return Result;
 	}
 
@@ -355,7 +362,8 @@ namespace glm
 	GLM_FUNC_QUALIFIER mat<4, 3, T, defaultp> make_mat4x3(T const *const ptr)
 	{
 		mat<4, 3, T, defaultp> Result;
-		memcpy(value_ptr(Result), ptr, sizeof(mat<4, 3, T, defaultp>));
+		for(length_t i = 0; i < 4; ++i)
+			memcpy(value_ptr(Result[i]), ptr + i * 3, 3 * sizeof(T));
 		return Result;
 	}
 
@@ -363,7 +371,8 @@ namespace glm
 	GLM_FUNC_QUALIFIER mat<4, 4, T, defaultp> make_mat4x4(T const *const ptr)
 	{
 		mat<4, 4, T, defaultp> Result;
-		memcpy(value_ptr(Result), ptr, sizeof(mat<4, 4, T, defaultp>));
+		for(length_t i = 0; i < 4; ++i)
+			memcpy(value_ptr(Result[i]), ptr + i * 4, 4 * sizeof(T));
 		return Result;
 	}
 
